@@ -172,7 +172,20 @@ func structHarnesses(prog *MProgram, prefix string, quick, thorough [][]int64) [
 	var hs []Harness
 	for _, f := range prog.Files {
 		for _, s := range f.Structs {
-			hs = append(hs, Harness{Func: prefix + s.Name, Quick: quick, Thorough: thorough, Covers: []string{"end"}})
+			th := thorough
+			// a struct with many container members: every container of length 2 with symbolic elements
+			// does not finish within the thorough budget (measured: > 30 min for one harness), so
+			// its thorough bound is the quick one
+			nc := 0
+			for _, fl := range s.Fields {
+				if fl.Type.Kind == "list" || fl.Type.Kind == "set" || fl.Type.Kind == "map" {
+					nc++
+				}
+			}
+			if nc >= 8 {
+				th = quick
+			}
+			hs = append(hs, Harness{Func: prefix + s.Name, Quick: quick, Thorough: th, Covers: []string{"end"}})
 		}
 	}
 	return hs
